@@ -14,7 +14,8 @@ PROVED, REFUTED, UNDECIDED = "proved", "refuted", "undecided"
 
 
 class Solver(object):
-    def __init__(self, timeout_ms=10000, feas_timeout_ms=2000):
+    def __init__(self, timeout_ms=10000, feas_timeout_ms=2000, defer=False):
+        self.defer = defer
         self.timeout_ms = timeout_ms
         self.feas_timeout_ms = feas_timeout_ms
         self.time = 0.0
@@ -40,6 +41,15 @@ class Solver(object):
         return s.to_smt2()
 
     def discharge(self, ob):
+        if self.defer:
+            # obligations are solved later, in parallel, from their SMT-LIB text (solve_smt2)
+            sd = z3.Solver()
+            sd.add(*ob.pc)
+            sd.add(z3.Not(ob.claim))
+            ob.smt2 = sd.to_smt2()
+            ob.status = None
+            self.queries += 1
+            return None
         s = z3.Solver()
         s.set("timeout", self.timeout_ms)
         s.add(*ob.pc)
@@ -95,3 +105,30 @@ class Solver(object):
             return UNDECIDED, "none (unknown/timeout in z3-5.1, cvc5, z3-4.8)"
         finally:
             os.unlink(fn)
+
+
+def solve_smt2(args):
+    """Worker: decide one obligation from its SMT-LIB text. -> (status, backend, seconds, model dict or None)"""
+    text, timeout_ms = args
+    t = time.time()
+    s = z3.Solver()
+    s.set("timeout", timeout_ms)
+    try:
+        s.from_string(text)
+        r = s.check()
+    except z3.Z3Exception as ex:
+        return UNDECIDED, "z3 could not re-read the obligation: %s" % str(ex)[:100], time.time() - t, None
+    dt = time.time() - t
+    be = "z3-%s" % z3.get_version_string()
+    if r == z3.unsat:
+        return PROVED, be, dt, None
+    if r == z3.sat:
+        try:
+            m = s.model()
+            model = {str(d): str(m[d]) for d in m.decls() if not str(d).startswith("uf:")}
+        except z3.Z3Exception:
+            model = {}
+        return REFUTED, be, dt, model
+    sv = Solver(timeout_ms=timeout_ms)
+    st, be2 = sv.external(text)
+    return st, be2, time.time() - t, None
